@@ -340,7 +340,10 @@ class Application(object):
             if not isinstance(ret, HTTPException):
                 # TODO: verify behavior
                 break
-            if not getattr(ret, 'source_route', None):
+            if not any(ret is e for e in dispatch_state.exceptions):
+                # anything but a non-breaking error recorded earlier in
+                # this dispatch comes from this route - also an exception
+                # instance that has been raised before, elsewhere
                 ret.source_route = route
             if getattr(ret, 'is_breaking', True):
                 break
